@@ -326,7 +326,7 @@ Definition pend (v0 : addr) (w : world) (m : msg) (id : Z) : Prop :=
          (toZ (p_size p) = 0 \/ p_dir p = side_to_direction (ts_side tm))) \/
       (id = DECREASE_ID /\ (exists q l c, m = MSwapInput v (side_to_direction (ts_side tm)) q l c) /\
          p_dir p = flip (side_to_direction (ts_side tm))) \/
-      (id = PARTIAL_CLOSE_ID /\ (exists q l c, m = MSwapInput v (side_to_direction (ts_side tm)) q l c) /\
+      (id = PARTIAL_CLOSE_ID /\ (exists b l, m = MSwapOutput v (p_dir p) b l /\ 0 <= b) /\
          ts_side tm = position_to_side (p_size p)) \/
       ((id = REVERSE_ID \/ id = CLOSE_ID \/ id = LIQUIDATION_ID) /\
          exists l, m = MSwapOutput v (p_dir p) (sval (p_size p)) l) \/
@@ -481,7 +481,7 @@ Proof.
     + rewrite zfind_zset_other in Hz0 by assumption. auto.
   - cbv zeta in Hcase. set (v := ts_vamm tm) in *. set (t := ts_trader tm) in *.
     set (p := get_position (w_eng w) (w_env w) v t (ts_side tm)) in *.
-    destruct Hcase as [(-> & (q & l & c & ->) & Hdir) | [(-> & (q & l & c & ->) & Hdir) | [(-> & (q & l & c & ->) & Hside) |
+    destruct Hcase as [(-> & (q & l & c & ->) & Hdir) | [(-> & (q & l & c & ->) & Hdir) | [(-> & (b & l & -> & Hb) & Hside) |
                        [(Hid & (l & ->)) | (-> & (b & l & -> & Hb & Hnz))]]]].
     + (* increase *)
       apply exec_swap_input in Hex. destruct Hex as (vm & vm' & qa & ba & Hz & Hsw & -> & ->).
@@ -522,8 +522,8 @@ Proof.
       * cbn [new_size]. rewrite <- (size_at_get (w_eng w) (w_env w) v t (ts_side tm)). fold p. rewrite Za, Hso3, Hdt. lia.
       * split; [exact Wa|]. rewrite Hd', Za, Hso3. rewrite Hdir in *.
         destruct (side_to_direction (ts_side tm)); cbn [flip] in *; lia.
-    + (* partial close *)
-      apply exec_swap_input in Hex. destruct Hex as (vm & vm' & qa & ba & Hz & Hsw & -> & ->).
+    + (* partial close: the partial base amount is swapped out *)
+      apply exec_swap_output in Hex. destruct Hex as (vm & vm' & qa & ba & Hz & Hsw & -> & ->).
       change (PARTIAL_CLOSE_ID =? INCREASE_ID) with false in Hre. change (PARTIAL_CLOSE_ID =? DECREASE_ID) with false in Hre.
       change (PARTIAL_CLOSE_ID =? REVERSE_ID) with false in Hre. change (PARTIAL_CLOSE_ID =? CLOSE_ID) with false in Hre.
       change (PARTIAL_CLOSE_ID =? PARTIAL_CLOSE_ID) with true in Hre. cbn iota in Hre.
@@ -533,8 +533,8 @@ Proof.
       destruct (Z.eq_dec v0 v) as [->|Hne]; [|exact (mirror_other _ _ (set_vamm w v vm') _ _ _ _ vm' Hm eq_refl eq_refl Hw Hne)].
       pose proof (coherent_get v w t (ts_side tm) Hm) as Hc. fold p in Hc.
       destruct Hm as (Hn & Hf & Htot). destruct (Htot vm Hz) as [Hwt Hsum].
-      apply swap_input_total in Hsw; [|exact Hwt]. destruct Hsw as (Hba & Hwt' & Hdt).
-      destruct (signed_out_facts (ts_side tm) ba Hba) as (Hso1 & Hso2 & Hso3).
+      apply swap_output_total in Hsw; [|exact Hwt|exact Hb]. destruct Hsw as (Eb & Hwt' & Hdt). subst ba.
+      destruct (signed_out_facts (ts_side tm) b Hb) as (Hso1 & Hso2 & Hso3).
       pose proof (coherent_abs p Hc) as Hab. destruct Hc as [Hcw Hcs].
       apply sgtb_abs_false in Hle; [|exact Hso1|exact Hcw]. rewrite Hso2 in Hle.
       apply sadd_toZ0 in Hadd; [|exact Hcw|exact Hso1]. destruct Hadd as (Za & Wa & _).
@@ -543,7 +543,9 @@ Proof.
       eapply mirror_step with (w := w) (w1 := set_vamm w v vm'); try exact Hw; try reflexivity; try exact Hz.
       * unfold mirror. auto.
       * exact Hwt'.
-      * cbn [new_size]. rewrite <- (size_at_get (w_eng w) (w_env w) v t (ts_side tm)). fold p. rewrite Za, Hso3, Hdt. lia.
+      * cbn [new_size]. rewrite <- (size_at_get (w_eng w) (w_env w) v t (ts_side tm)). fold p. rewrite Za, Hso3, Hdt.
+        rewrite Hside in *. unfold position_to_side in *. rewrite Hps in *.
+        destruct (Z.ltb_spec 0 (toZ (p_size p))); cbn [side_to_direction] in *; destruct (p_dir p); lia.
       * split; [exact Wa|]. rewrite Hd', Za, Hso3. rewrite Hside in *. unfold position_to_side in *. rewrite Hps in *.
         destruct (Z.ltb_spec 0 (toZ (p_size p))); cbn [side_to_direction] in *; destruct (p_dir p); lia.
     + (* reverse / close / full liquidation: the whole position is swapped out *)
@@ -674,7 +676,7 @@ Qed.
 Lemma pend_is_simple v0 w m id : pend v0 w m id -> is_swap m = true.
 Proof.
   intros [_ [[_ [a ->]]|(tm & _ & Hc)]]; [reflexivity|]. cbv zeta in Hc.
-  destruct Hc as [(_ & (q & l & c & ->) & _) | [(_ & (q & l & c & ->) & _) | [(_ & (q & l & c & ->) & _) |
+  destruct Hc as [(_ & (q & l & c & ->) & _) | [(_ & (q & l & c & ->) & _) | [(_ & (b & l & -> & _) & _) |
                   [(_ & (l & ->)) | (_ & (b & l & -> & _))]]]]; reflexivity.
 Qed.
 
@@ -804,7 +806,13 @@ Proof.
     all: match goal with Hz : negb (sval (p_size (read_position ?e ?v ?t)) =? 0) = true |- _ =>
            apply negb_true_iff in Hz; apply Z.eqb_neq in Hz; rewrite (get_position_found _ _ _ _ _ _ (read_position_found _ _ _ Hz)) end.
     all: first
-      [ right; right; left; split; [reflexivity|]; split; [do 3 eexists; reflexivity|]; reflexivity
+      [ right; right; left; split; [reflexivity|]; split;
+          [ do 2 eexists; split; [rewrite dir_side_inv; reflexivity|];
+            arith_ok; subst; destruct Hplr as (HD & Hp0 & _);
+            match goal with |- 0 <= sval (p_size (read_position (w_eng ?w0) ?v1 ?t1)) * _ / _ =>
+              pose proof (coherent_read v1 w0 t1 (Hall v1)) as [Hcw _]; unfold wf0 in Hcw end;
+            apply Z.div_pos; [apply Z.mul_nonneg_nonneg; lia | lia]
+          | reflexivity ]
       | right; right; right; left; split; [right; left; reflexivity|]; eexists; rewrite dir_side_inv; reflexivity ].
   - (* liquidate *)
     unfold e_liquidate, internal_close_position in H.
